@@ -6,7 +6,7 @@ import time
 import canon
 import peers as P
 import runner
-from coqlit import cbytes, clist, cbool
+from coqlit import cbytes, clist, cbool, cz
 
 TIMEOUT = 1
 
@@ -213,5 +213,48 @@ def run(ctx):
         descs.append({'op': 'cli-handshake', 'kind': c['kind'], 'pkt': c['pkt'].hex(), 'end': c['end'], 'rc': r['rc'], 'report': rep})
         if (r['rc'] == 1) == rep:
             ctx.violation('status-report-mismatch/first/%s' % c['kind'], 'status %r but report shown: %r' % (r['rc'], rep), descs[-1])
+    # the SSH-1 retry: with protocol 1 allowed, exactly the text 'Protocol major versions differ.' in place of the first packet makes the tool
+    # audit the peer again as SSH-1; the run ends as that retry ends (model: audit_exit with both handshakes)
+    fb_cases = []
+    pk_ok = P.frame1(P.pkm_payload(0x4c, 0x0c))
+    for i in range(16 if q else 200):
+        r = random.Random(rng.getrandbits(32))
+        txt = r.choice([b'Protocol major versions differ.\n'] * 4 + [b'Protocol major versions differ\n', b'protocol major versions differ.\n', b'Protocol major versions differ. \n', b'Protocol major versions differ.\r\n', b'Protocol mismatch.\n'])
+        k1 = r.choice(['pkm', 'pkm', 'trunc', 'badcrc', 'wrongtype', 'garbage', 'empty', 'mismatch-again'])
+        p1 = pk_ok
+        if k1 == 'trunc': p1 = pk_ok[:r.randrange(len(pk_ok))]
+        elif k1 == 'badcrc': p1 = pk_ok[:-1] + bytes([pk_ok[-1] ^ 0x5a])
+        elif k1 == 'wrongtype': p1 = P.frame1(bytes([r.choice([0, 3, 20])]) + P.pkm_payload(0x4c, 0x0c)[1:])
+        elif k1 == 'garbage': p1 = bytes(r.randrange(256) for _ in range(r.choice([3, 16, 64])))
+        elif k1 == 'empty': p1 = b''
+        elif k1 == 'mismatch-again': p1 = b'Protocol major versions differ.\n'
+        fb_cases.append({'txt': txt, 'k1': k1, 'p1': p1})
+
+    def do_fb(z, c):
+        first = P.RawServer([b'SSH-1.99-OpenSSH_3.0\r\n', ('sleep', 0.05), c['txt']], then='close-now')
+        second = P.RawServer([b'SSH-1.99-OpenSSH_3.0\r\n', ('sleep', 0.05)] + ([c['p1']] if c['p1'] else []), then='close-now')
+        srv = P.Server(P.PerConn([first, second]), stall_limit=3.0)
+        try:
+            res = z.run(['-n', '--skip-rate-test', '-t', '1', '127.0.0.1:%d' % srv.port], timeout=60)
+            res['conns'] = srv.conns()
+            return res
+        finally:
+            srv.shutdown()
+    with runner.Pool() as pool:
+        fres = pool.map(do_fb, fb_cases)
+    for c, r in zip(fb_cases, fres):
+        d = {'op': 'cli-ssh1-fallback', 'first': c['txt'].decode(), 'second_kind': c['k1'], 'second': c['p1'].hex(), 'rc': r['rc'], 'conns': r['conns']}
+        if r['rc'] not in (0, 1, 2, 3) or r['timed_out']:
+            ctx.violation('undocumented-status/fallback/%s' % c['k1'], 'exit status %r in the SSH-1 retry (%s)' % (r['rc'], c['k1']), d)
+            continue
+        rep = bool(re.search(r'^\((key|enc|aut)\) ', canon.strip_ansi(r['out']), re.M))
+        s0 = '{| s_buf := []; s_chunks := [%s]; s_end := Close |}' % cbytes(c['txt'])
+        s1 = '{| s_buf := []; s_chunks := %s; s_end := Close |}' % clist([c['p1']] if c['p1'] else [], cbytes)
+        terms.append('match audit_exit 2 true (HsPacket (read_packet 2 %s)) (HsPacket (read_packet 1 %s)) 77 with Exit st => Z.eqb st %s | Uncaught _ => false end' % (s0, s1, cz(77 if rep else r['rc'])))
+        descs.append(d)
+        terms.append('Bool.eqb (match classify 2 true (read_packet 2 %s) with ApFallbackSsh1 => true | _ => false end) %s' % (s0, 'true' if r['conns'] >= 2 else 'false'))
+        descs.append(dict(d, op='cli-ssh1-fallback-taken'))
+        if (r['rc'] == 1) == rep:
+            ctx.violation('status-report-mismatch/fallback/%s' % c['k1'], 'status %r but SSH-1 report shown: %r' % (r['rc'], rep), d)
     ctx.correspond('handshake', ['VModel:AuditSM', 'VProofs:AuditProofs'], '', terms, lambda i: descs[i])
     ctx.cover(len(hs_cases), {(c['kind'], c['end']) for c in hs_cases}, [], 'first-packet byte strings (valid / truncated / length fields / wrong type / zero payload / garbage / bad block) after a valid banner vs the model classify(read_packet ...)')
